@@ -11,7 +11,6 @@ import types
 from harness.common import canon, dec_res, enc_val, ensure_impl_on_path, known_predicate, run_impl
 
 GEN_MODULES = []
-EXTRA_TARGETS = ['Refuted/C11_assoc.vo']
 ASSUMPTIONS = []
 EXPLANATION = (
     "Model/Addr.v is hand-written (the address classes are namedtuple subclasses with "
@@ -134,11 +133,6 @@ def descr_any(v):
 
 
 # ------------------------------------------------------------ known findings
-@known_predicate('C11-assoc-null')
-def _assoc_null(case):
-    return case.get('cls') == 'assoc-null'
-
-
 @known_predicate('C11-sheet-bang')
 def _sheet_bang(case):
     return case.get('cls') == 'sheet-bang'
@@ -316,6 +310,18 @@ def run(ctx):
             R.add(nm, (('', 1, 1, 2, 2), e), lambda e=e, f=f: f(build(('', 1, 1, 2, 2)), e), kind=nm + ':error')
             R.add(nm, (e, ('', 1, 1, 2, 2)), lambda e=e, f=f: f(e, build(('', 1, 1, 2, 2))), kind=nm + ':error')
             R.add(nm, (e, e), lambda e=e, f=f: f(e, e), kind=nm + ':error')
+    for t in ('A1:B2', 'B2', 'S!A1:C3', "'S T'!B2", 'T!A1', 'R1C1', 'garbage', '#BAD!', '', 'A:B', 'A1:B2:C3', 'a!b!A1'):
+        for a in (('', 1, 1, 2, 2), ('S', 2, 2)):
+            for nm, f in ops:
+                R.add(nm, (a, t), lambda a=a, t=t, f=f: f(build(a), t), kind=nm + ':text')
+                R.add(nm, (t, a), lambda a=a, t=t, f=f: f(t, build(a)), kind=nm + ':text')
+    for _ in range(ctx.n(1500, 30000)):
+        a, b, c = (rect_spec(rng.choice(sheet_mix), *rng.choice(rects)) for _ in range(3))
+        for nm, f in ops:
+            R.add(nm + '_l', (a, b, c), lambda a=a, b=b, c=c, f=f: f(f(build(a), build(b)), build(c)),
+                  kind=nm + '_l:sheets')
+            R.add(nm + '_r', (a, b, c), lambda a=a, b=b, c=c, f=f: f(build(a), f(build(b), build(c))),
+                  kind=nm + '_r:sheets')
     triples = []
     for _ in range(ctx.n(2500, 60000)):
         triples.append(tuple(rng.choice(rects) for _ in range(3)))
@@ -481,17 +487,36 @@ def oracle(ctx, cells, rects, rects_big, triples):
         ctx.count(('triple', ra, rb, rcc), kind='oracle:triples')
         want_i = want_descr('S', expected_inter(ra, rb, rcc))
         want_u = want_descr('S', expected_union(ra, rb, rcc))
-        inner_null = expected_inter(ra, rb) is None or expected_inter(rb, rcc) is None
         for nm, want, thunks in (
                 ('inter', want_i, (lambda: descr((a & b) & c), lambda: descr(a & (b & c)))),
                 ('union', want_u, (lambda: descr((a ** b) ** c), lambda: descr(a ** (b ** c))))):
             for side, th in zip('lr', thunks):
                 got = run_impl(th)
                 if got != ('ok', want):
-                    case = dict(call=f'{nm}_{side}', args=[list(ra), list(rb), list(rcc)],
-                                cls='assoc-null' if (nm == 'inter' and inner_null and got[0] == 'raise') else 'assoc')
+                    case = dict(call=f'{nm}_{side}', args=[list(ra), list(rb), list(rcc)], cls='assoc')
                     ctx.violation(case, "three-way result differs from the set-theoretic one "
                                         "(associativity / #NULL! propagation)", impl=got, expected=want)
+    # ** across sheets: #VALUE! iff two named sheets differ, whichever the grouping; error operands handed on
+    for _ in range(ctx.n(800, 15000)):
+        ss = [rng.choice(['', '', 'S', 'T']) for _ in range(3)]
+        rs = [rng.choice(rects) for _ in range(3)]
+        a, b, c = (mk(s, r) for s, r in zip(ss, rs))
+        ctx.count(('utriple', tuple(ss), tuple(rs)), kind='oracle:union-sheets')
+        named = {s for s in ss if s}
+        want = '#VALUE!' if len(named) > 1 else want_descr(next(iter(named), ''), expected_union(*rs))
+        for side, th in (('l', lambda: descr((a ** b) ** c)), ('r', lambda: descr(a ** (b ** c)))):
+            got = run_impl(th)
+            if got != ('ok', want):
+                ctx.violation(dict(call=f'union_{side}', args=[ss, [list(r) for r in rs]], cls='assoc-sheets'),
+                              "three-way union across sheets differs from the expected value", impl=got, expected=want)
+    for e in ('#NULL!', '#VALUE!', '#REF!', '#N/A'):
+        a = mk('S', (1, 1, 2, 2))
+        ctx.count(('errop', e), kind='oracle:error-operand')
+        for nm, th in (('a&e', lambda: a & e), ('e&a', lambda: e & a), ('a**e', lambda: a ** e), ('e**a', lambda: e ** a)):
+            got = run_impl(th)
+            if got != ('ok', e):
+                ctx.violation(dict(call='error-operand', args=[nm, e]), "an error operand is not handed on",
+                              impl=got, expected=e)
     # ---- 5. offsets
     for (ac, ar) in ANCHORS + [(rng.randrange(1, MAX_COL + 1), rng.randrange(1, MAX_ROW + 1))
                                for _ in range(ctx.n(30, 300))]:
